@@ -63,7 +63,24 @@ class Falsy:
         return 1
 
 
-LIKES = [None, False, 0, "", (), [], {}, AlwaysEq(), Falsy(), 0.0, "MISSING"]
+class ClaimsMissing:
+    """claims to be a Missing through __class__ (as Mock(spec=Missing) does): still not THE missing value"""
+
+    @property
+    def __class__(self):  # noqa: PLW3201
+        return Missing
+
+    def __eq__(self, other):
+        return type(other) is ClaimsMissing
+
+    def __hash__(self):
+        return 2
+
+    def __reduce__(self):  # copy / pickle must rebuild THIS class, not the one it claims to be
+        return (ClaimsMissing, ())
+
+
+LIKES = [None, False, 0, "", (), [], {}, AlwaysEq(), Falsy(), 0.0, "MISSING", ClaimsMissing()]
 
 
 @dataclasses.dataclass
@@ -189,7 +206,7 @@ def compare(out: Outcome, path, a, b, opname):
             out.violate(
                 "identity",
                 f"C20.identity/{'pickle' if opname.startswith('pickle') else opname}/second-instance",
-                f"path={path} op={opname} got {type(b).__name__} id differs (is Missing: {isinstance(b, Missing)})",
+                f"path={path} op={opname} got {type(b).__name__} id differs (is Missing: {type(b) is Missing})",
             )
         return
     if isinstance(a, State):
@@ -262,7 +279,7 @@ def check_predicates(out: Outcome, x):
         if not isinstance(x, AlwaysEq):
             if bool(x == MISSING) != real:
                 out.violate("eq", "C20.eq/x==MISSING", repr(x))
-        if isinstance(x, Missing) and not real:
+        if type(x) is Missing and not real:
             out.violate("identity", "C20.identity/second-instance-present", repr(x))
     except Exception as exc:  # noqa: BLE001
         out.violate("pred", f"C20.pred/raised/{type(exc).__name__}", f"{x!r}: {exc!r}")
